@@ -80,22 +80,22 @@ type Failure struct {
 }
 
 type Out struct {
-	Property     string
-	Dir          string
-	Imports      string // Coq import line(s) for shards
-	CaseType     string // Coq type of a case
-	CheckFn      string // Coq function case -> bool
-	ShardSize    int
-	cases        []string
-	caseJSON     []interface{}
-	distinct     map[string]bool
-	Evaluations  int
-	Rule         string
-	Samples      []interface{}
-	Failures     []Failure
-	Stats        map[string]int
-	Extra        map[string]interface{}
-	MaxSamples   int
+	Property    string
+	Dir         string
+	Imports     string // Coq import line(s) for shards
+	CaseType    string // Coq type of a case
+	CheckFn     string // Coq function case -> bool
+	ShardSize   int
+	cases       []string
+	caseJSON    []interface{}
+	distinct    map[string]bool
+	Evaluations int
+	Rule        string
+	Samples     []interface{}
+	Failures    []Failure
+	Stats       map[string]int
+	Extra       map[string]interface{}
+	MaxSamples  int
 }
 
 func NewOut(prop, dir string) *Out {
